@@ -19,7 +19,7 @@ proof! {
     }
 }
 
-//@ tier=quick timeout=300 bits=192 fns=warp_math::prng::Prng::next_int
+//@ tier=quick timeout=600 bits=192 unwind=2 fns=warp_math::prng::Prng::next_int
 //@ bounds="every 128-bit seed; every (min, max) whose span max-min+1 is a power of two (the loop-free path)"
 //@ desc="next_int over a power-of-two span returns a value in [min, max] without overflow for every seed and every such range, including the full i32 range"
 proof! {
